@@ -140,13 +140,15 @@ def check_case(case):
     if case["kind"] == "number":
         no, cc = case["no"], case["cc"]
         g = sg.sg(sgno=no, cell_choice=cc)
-        call = lambda pf: structure.multiplicity(pf, sgno=no, cell_choice=cc)
+        cc_rt = "".join(list(cc))  # a string equal to the literal but built at run time (identity comparisons with literals would fail)
+        call = lambda pf: structure.multiplicity(pf, sgno=no, cell_choice=cc_rt)
         tag = "Sg%d/%s" % (no, cc)
         pos = positions(tier)[case["lo"]:case["hi"]]
     else:
         name = case["name"]
         g = sg.sg(sgname=name)
-        call = lambda pf: structure.multiplicity(pf, sgname=name)
+        name_rt = "".join(list(name))
+        call = lambda pf: structure.multiplicity(pf, sgname=name_rt)
         tag = "name:%s" % name
         pos = [(p, (0, 0, 0)) for p in itertools.product(SUB if tier == "quick" else GRID, repeat=3)]
         pos.append(((XGEN[0], F(3141, 10000), F(5926, 10000)), (0, 0, 0)))
